@@ -1,15 +1,4 @@
-mod checks;
-mod corpus;
-mod driver;
-mod gast;
-mod genprog;
-mod model;
-mod pipeline;
-mod refmodel;
-mod rsview;
-mod l2;
-mod l3;
-mod tape;
+use pv::{checks, driver, genprog, model, pipeline, tape};
 
 use driver::{Ctx, DynProp, Tier, Verdict};
 
@@ -30,6 +19,11 @@ fn registry() -> Vec<Check> {
             id: "C02",
             run: checks::c02::run,
             props: checks::c02::props,
+        },
+        Check {
+            id: "C12",
+            run: checks::c12::run,
+            props: checks::c12::props,
         },
         Check {
             id: "C13",
@@ -187,9 +181,18 @@ fn main() {
         usage();
     }
     pipeline::install_quiet_panic_hook();
+    if args[1] == "c12-worker" {
+        pipeline::install_quiet_panic_hook();
+        checks::c12::worker_main();
+        return;
+    }
     if args[1] == "build-once" {
         pipeline::install_quiet_panic_hook();
         checks::c09::build_once_cli(&args[2], args.get(3).and_then(|s| s.parse().ok()).unwrap_or(4));
+        return;
+    }
+    if args[1] == "gen-corpus" {
+        gen_corpus(&args[2], args.get(3).and_then(|s| s.parse().ok()).unwrap_or(100));
         return;
     }
     if args[1] == "gen-stats" {
@@ -413,4 +416,32 @@ fn gen_stats(n: usize, w: u64) {
         println!("=== {c} x {k}\n{ex}");
     }
     pipeline::cleanup_work_root();
+}
+
+/// Writes seed inputs for the fuzz targets: printed generator output (single modules).
+fn gen_corpus(dir: &str, n: usize) {
+    use proptest::strategy::{Strategy, ValueTree};
+    let mut cfg = proptest::test_runner::Config::default();
+    cfg.rng_seed = proptest::test_runner::RngSeed::Fixed(7);
+    cfg.failure_persistence = None;
+    let mut runner = proptest::test_runner::TestRunner::new(cfg);
+    let strat = proptest::collection::vec(proptest::num::u32::ANY, 50..=600);
+    std::fs::create_dir_all(dir).unwrap();
+    for i in 0..n {
+        let tape = strat.new_tree(&mut runner).unwrap().current();
+        let mut t = tape::Tape::new(&tape);
+        let text = if i % 3 == 0 {
+            pv::gast::print_gmod(&pv::gast::gen_gmod(&mut t), pv::gast::Style::canonical())
+        } else {
+            let mut c = genprog::GenCfg::rich(if i % 2 == 0 { 4 } else { 8 });
+            c.max_mods = 1;
+            c.max_items = 4;
+            c.max_fields = 4;
+            let (prog, _, _) = genprog::gen_prog(&mut t, c);
+            model::print_mod(&prog.mods[0])
+        };
+        if text.len() < 3000 {
+            std::fs::write(format!("{dir}/seed-{i:04}.pyxis"), text).unwrap();
+        }
+    }
 }
